@@ -206,6 +206,8 @@ def line_diff(a, b, keys):
     da, db = parse_out(a), parse_out(b)
     diff = []
     for k in set(da) | set(db):
+        if k.startswith("~"):
+            continue  # model-only coverage annotations
         if keys is not None and not k.startswith("_") and k not in keys:
             continue
         if da.get(k) != db.get(k):
@@ -258,7 +260,10 @@ def compare_files(ops_path, impl_path, res_path, model_path, keys):
         if impl[i].startswith("#case"):
             cur += 1
         case_idx.append(cur)
+    tainted = {case_idx[i] for i in range(n) if impl[i].endswith(" tick") or impl[i] == "tick"}
     for i in range(n):
+        if case_idx[i] in tainted:
+            continue  # the wall-clock second ticked during a clock-reading op: case not judged
         if impl[i].startswith("#case"):
             if impl[i] != model[i]:
                 failures.append((case_idx[i], i, ["#desync"]))
@@ -392,7 +397,7 @@ def run_stream(prop_id, cfg, scfg, seed, tier, log, stats):
                 st["nontrivial"].add(h)
             for o in outs:
                 for hk in scfg.get("hist_keys", []):
-                    v = parse_out(o).get(hk)
+                    v = parse_out(o).get(hk, parse_out(o).get("~" + hk))
                     if v is not None:
                         hist.setdefault(hk, {}).setdefault(v, 0)
                         hist[hk][v] += 1
